@@ -225,12 +225,26 @@ func wire(o *hx.Opts, rep *hx.Report, rng *hx.Rng) {
 		all = append(all, n)
 	}
 	sort.Strings(all)
-	subs := []string{"INBOX", "a/b", "B", "x/y"}
+	subs := []string{"INBOX", "a/b/c", "B", "x/y", "aB/a"}
 	for _, s := range subs {
 		c.Cmd("SUBSCRIBE " + s)
 	}
+	shown := append([]string(nil), subs...)
+	isSub := map[string]bool{}
+	for _, s := range subs {
+		isSub[s] = true
+	}
+	for _, s := range subs {
+		parts := strings.Split(s, "/")
+		for i := 1; i < len(parts); i++ {
+			if anc := strings.Join(parts[:i], "/"); !isSub[anc] {
+				isSub[anc] = true
+				shown = append(shown, anc)
+			}
+		}
+	}
 	pats := []string{"*", "%", "a*", "a/%", "a/*", "%/%", "*/c", "inbox", "INB*", "i%", "B%", "%a", "x/%", "*y", "%/b/%", "S*", "s*"}
-	refs := []string{"", "a", "a/", "x"}
+	refs := []string{"", "a", "a/", "x", "x/", "a/b/"}
 	n := 40
 	if o.Thorough {
 		n = len(pats) * len(refs)
@@ -255,13 +269,16 @@ func wire(o *hx.Opts, rep *hx.Report, rng *hx.Rng) {
 		resp = c.Cmd(fmt.Sprintf("LSUB %q %q", r, p))
 		got = nil
 		for _, l := range resp.Untagged {
-			if strings.Contains(l, `\Noselect`) {
-				continue
-			}
 			got = append(got, listName(l))
 		}
 		sort.Strings(got)
-		ops = append(ops, "filter "+hx.H(r)+" "+hx.H(p)+" "+hx.HList(subs))
+		// subscribed names and the implied (\Noselect) parents of subscribed names, all matched against reference + pattern
+		// (RFC 3501 6.3.9: the \Noselect parents are for patterns with %; a * reaches the subscribed children themselves)
+		cand := subs
+		if strings.Contains(p, "%") {
+			cand = shown
+		}
+		ops = append(ops, "filter "+hx.H(r)+" "+hx.H(p)+" "+hx.HList(cand))
 		impl = append(impl, "set:"+strings.Join(got, ","))
 		rep.Case("LSUB "+r+" "+p, true)
 		rep.Hit("wire-LSUB")
